@@ -203,6 +203,44 @@ func (r *breader) readConst() (v Value) {
 	return v
 }
 
+// Bounds on the sizes found in a binary chunk.  They are far above what the
+// compiler can produce (65536 constants, 32767 upvalues) and low enough for the
+// allocations below to be safe whatever the input claims.
+const (
+	maxChunkCodeLen   = 1 << 26
+	maxChunkConstLen  = 1 << 24
+	maxChunkUpvalues  = 1 << 15
+	maxChunkStringLen = 1 << 40
+)
+
+var errInvalidSize = errors.New("Invalid size")
+
+// size validates a size read from the input before anything is allocated for
+// it: it must be between 0 and max, and when the underlying reader can tell how
+// much input is left, at least n items of elemSize bytes must still be there.
+// It returns 0 and sets r.err if that is not the case.
+func (r *breader) size(n int64, max int64, elemSize uint64) int {
+	if r.err != nil {
+		return 0
+	}
+	if n < 0 || n > max {
+		r.err = errInvalidSize
+		return 0
+	}
+	if !r.available(uint64(n) * elemSize) {
+		r.err = io.ErrUnexpectedEOF
+		return 0
+	}
+	return int(n)
+}
+
+// available returns false if the underlying reader knows that fewer than n
+// bytes are left to read.
+func (r *breader) available(n uint64) bool {
+	l, ok := r.r.(interface{ Len() int })
+	return !ok || uint64(l.Len()) >= n
+}
+
 func (r *breader) readCode(c *Code) {
 	var sz int64
 	r.read(
@@ -211,22 +249,32 @@ func (r *breader) readCode(c *Code) {
 		&c.name,
 		&sz,
 	)
-	c.code = make([]code.Opcode, sz)
+	// The budget for the items is consumed before the memory for them is
+	// allocated: the sizes come from the input.
+	n := r.size(sz, maxChunkCodeLen, 4)
+	r.consumeBudget(4 * uint64(n))
+	c.code = make([]code.Opcode, n)
 	r.read(
-		4*uint64(sz)+8,
+		8,
 		c.code,
 		&sz,
 	)
-	c.lines = make([]int32, sz)
+	n = r.size(sz, maxChunkCodeLen, 4)
+	r.consumeBudget(4 * uint64(n))
+	c.lines = make([]int32, n)
 	r.read(
-		4*uint64(sz)+8,
+		8,
 		c.lines,
 		&sz,
 	)
-	c.consts = make([]Value, sz)
-	for i := range c.consts {
-		c.consts[i] = r.readConst()
+	// Each constant takes at least one byte of input and of budget
+	n = r.size(sz, maxChunkConstLen, 1)
+	r.checkBudget(uint64(n))
+	consts := make([]Value, n)
+	for i := range consts {
+		consts[i] = r.readConst()
 	}
+	c.consts = consts
 	r.read(
 		2+2+2+8,
 		&c.UpvalueCount,
@@ -234,10 +282,17 @@ func (r *breader) readCode(c *Code) {
 		&c.CellCount,
 		&sz,
 	)
-	c.UpNames = make([]string, sz)
-	for i := range c.UpNames {
-		c.UpNames[i] = r.readString()
+	if r.err == nil && (c.UpvalueCount < 0 || c.RegCount < 0 || c.CellCount < 0) {
+		r.err = errInvalidSize
 	}
+	// Each name takes at least 8 bytes of input and of budget
+	n = r.size(sz, maxChunkUpvalues, 8)
+	r.checkBudget(8 * uint64(n))
+	upNames := make([]string, n)
+	for i := range upNames {
+		upNames[i] = r.readString()
+	}
+	c.UpNames = upNames
 }
 
 func (r *breader) read(sz uint64, xs ...interface{}) {
@@ -267,8 +322,12 @@ func (r *breader) readString() (s string) {
 	if r.err != nil {
 		return
 	}
-	r.consumeBudget(uint64(sl))
-	b := make([]byte, sl)
+	n := r.size(sl, maxChunkStringLen, 1)
+	if r.err != nil {
+		return
+	}
+	r.consumeBudget(uint64(n))
+	b := make([]byte, n)
 	_, r.err = r.r.Read(b)
 	if r.err == nil {
 		s = string(b)
@@ -284,6 +343,14 @@ func (r *breader) consumeBudget(amount uint64) {
 		panic(budgetConsumed)
 	}
 	r.budget -= amount
+}
+
+// checkBudget panics like consumeBudget if less than amount is left of the
+// budget, but consumes nothing.
+func (r *breader) checkBudget(amount uint64) {
+	if r.budget != 0 && r.budget < amount {
+		panic(budgetConsumed)
+	}
 }
 
 var errInvalidValueType = errors.New("Invalid value type")
